@@ -242,3 +242,45 @@ package stdlib
 //@   pure
 //@   nopanic
 //@   ensures result != nil && fresh(result) [ASSUMED]
+
+// ---- hashing a prefix of a byte slice (C14: the built-in hashers of the deduplicator) ----
+// A hash object is described by its kind, the byte slice it was fed from and how many of its leading bytes; the digest is
+// an uninterpreted function of these three. Nothing is said about different slices with equal contents, nor about
+// collisions. ASSUMED: a hash object is fed at most once (sound for code that creates, feeds once and sums).
+
+//@ spec hashkind(h any) int
+//@ spec fedsrc(h any) int
+//@ spec fedcount(h any) int
+//@ spec readersrc(r any) int
+//@ spec readerlen(r any) int
+//@ spec digest(kind int, src int, count int) string
+
+//@ assume-contract crypto/sha256.New
+//@   pure
+//@   nopanic
+//@   ensures result != nil && hashkind(result) == 256 [ASSUMED]
+
+//@ assume-contract hash/adler32.New
+//@   pure
+//@   nopanic
+//@   ensures result != nil && hashkind(result) == 32 [ASSUMED]
+
+//@ assume-contract bytes.NewReader
+//@   pure
+//@   nopanic
+//@   ensures result != nil && readersrc(result) == base(b) && readerlen(result) == len(b) [ASSUMED]
+
+//@ assume-contract io.CopyN
+//@   nopanic
+//@   ensures hasdyntype(src, "*bytes.Reader") && n >= 0 ==> fedsrc(dst) == readersrc(unboxptr(src, "bytes.Reader")) && fedcount(dst) == (n < readerlen(unboxptr(src, "bytes.Reader")) ? n : readerlen(unboxptr(src, "bytes.Reader"))) [ASSUMED]
+//@   modifies nothing
+
+//@ assume-contract iface:hash.Hash.Sum
+//@   nopanic
+//@   ensures len(b) == 0 ==> bytesstr(result) == digest(hashkind(recv), fedsrc(recv), fedcount(recv)) [ASSUMED]
+//@   modifies nothing
+
+//@ assume-contract iface:hash.Hash32.Sum
+//@   nopanic
+//@   ensures len(b) == 0 ==> bytesstr(result) == digest(hashkind(recv), fedsrc(recv), fedcount(recv)) [ASSUMED]
+//@   modifies nothing
